@@ -60,6 +60,7 @@ def families(tier):
         ("stack-lattice", lambda: (c for k, c in enumerate(fam.g1_stack("quick")) if k % 4 == 0), 64),
         ("G2-three-nucleotides", lambda: iter(fam.g2(tier)), 8),
         ("G3-corpus", lambda: fam.corpus_cases(tier, G3_Q, G3_T), 16),
+        ("near-threshold", lambda: fam.near_threshold_cases(), 16),
         ("all-models", lambda: multi_model_cases(), 1),
         # one structure object holding two models (numbered 1/2, 0/1 or 5/2) of different geometry: every model's annotation must be well-formed on its own
         ("two-models", lambda: itertools.chain(fam.two_model_cases(fam.g1_stack("quick"), 41, 5), fam.two_model_cases(fam.g1_pairs("quick"), 17, 3)), 8),
